@@ -204,6 +204,20 @@ theorem load_truncated_errors (m : Nat) (sig csig : List Int) (g : Graph) (k : N
 example : loadGraph markerPD [] [] ((storeGraph markerPD [] [] (({} : Graph).addVertex ⟨0, [1]⟩)).take 1)
     = .error .truncated := by rfl
 
+/-- the same for a graph **without edges** (vertices only, marked or not): the archive is the header and one record
+per vertex, and every proper prefix — i.e. any truncation inside the vertex block — makes `load` fail; nothing after
+the vertex block could mask it -/
+theorem load_truncated_errors_no_edges (m : Nat) (sig csig : List Int) (g : Graph) (he : g.edges = []) (k : Nat)
+    (hk : k ≤ g.verts.length) :
+    (storeGraph m sig csig g).length = g.verts.length + 1 ∧
+    loadGraph m sig csig ((storeGraph m sig csig g).take k) = .error .truncated := by
+  have hl : (storeGraph m sig csig g).length = g.verts.length + 1 := by
+    simp [storeGraph, he, vrecs_length]
+  exact ⟨hl, loadGraph_truncated m sig csig g k (by omega)⟩
+
+example : loadGraph markerPD [] [] ((storeGraph markerPD [] []
+    (((({} : Graph).addVertex ⟨0, [1]⟩).addVertex ⟨1, [2]⟩).markGoal 1)).take 2) = .error .truncated := by rfl
+
 /-- a geometric archive is rejected by the control loader and vice versa (at record level the markers differ) -/
 theorem load_rejects_other_kind (sig csig csig' : List Int) (g : Graph) :
     loadGraph markerPDC sig csig (storeGraph markerPD sig csig' g) = .error .marker ∧
